@@ -522,6 +522,8 @@ package varlink
 //@   assert [ivp-dec C12] at call(Unmarshal)#4 : arg0 == *errorRawParameters && arg1 == boxed(addr_param) && e.Name == "org.varlink.service.InvalidParameter"
 
 //@ func (*Connection).Send {C02 C03 C11 | safety: C11}
+//@   schema [call-keys C03] (*Connection).Send:call => serviceCall
+//@   schema [reply-keys C03] serviceReply => (*Connection).Send$1:reply
 //@   requires [nn] c != nil && c.conn != nil && c.conn.conn != nil && ctx != nil
 //@   modifies gSendWrites, gm, dlWpast, dlWzero, dlWctx, helper, gDlFail, gCancelled, gCtxErr, gWrCalls, gSends, gSentN, gSentErr
 //@   ghostset at call(Marshal)#1 : gm = res0
@@ -565,6 +567,8 @@ package varlink
 //@   assert [out C03 C13] at call(dynamic)#1 : arg1 == outParameters
 
 //@ func (*Connection).GetInterfaceDescription {C13 | safety: C11}
+//@   schema [desc-keys C13] (*Call).replyGetInterfaceDescription:var(out) => (*Connection).GetInterfaceDescription:reply
+//@   schema [desc-req-keys C13] (*Connection).GetInterfaceDescription:request => (*Service).orgvarlinkserviceDispatch:var(in)
 //@   requires [nn] c != nil && c.conn != nil && c.conn.conn != nil && ctx != nil
 //@   modifies gSendErr, gRecvRes, gSendWrites, gm, dlWpast, dlWzero, dlWctx, helper, gDlFail, gCancelled, gCtxErr, gWrCalls, gSends, gSentN, gSentErr
 //@   assert [call C13] at call(Call)#1 : arg2 == "org.varlink.service.GetInterfaceDescription" && arg4 == boxed(addr_r) && typeof(arg3) != 0
@@ -572,6 +576,7 @@ package varlink
 //@   ensures [err C13] result1 != nil ==> result0 == ""
 
 //@ func (*Connection).GetInfo {C13 | safety: C11}
+//@   schema [info-keys C13] (*Call).replyGetInfo:var(out) => (*Connection).GetInfo:reply
 //@   requires [nn] c != nil && c.conn != nil && c.conn.conn != nil && ctx != nil
 //@   modifies *vendor, *product, *version, *url, *interfaces, gSendErr, gRecvRes, gSendWrites, gm, dlWpast, dlWzero, dlWctx, helper, gDlFail, gCancelled, gCtxErr, gWrCalls, gSends, gSentN, gSentErr
 //@   assert [call C13] at call(Call)#1 : arg2 == "org.varlink.service.GetInfo" && arg4 == boxed(addr_r)
@@ -653,6 +658,7 @@ package varlink
 //@   assert [call C13] at call(Call)#1 : arg0 == r.conn && arg2 == "org.varlink.resolver.Resolve" && arg4 == boxed(addr_rep)
 
 //@ func (*Resolver).GetInfo {C13 | safety: C11}
+//@   schema [resolver-info-keys C13] (*Call).replyGetInfo:var(out) => (*Resolver).GetInfo:reply
 //@   requires [nn] r != nil && r.conn != nil && r.conn.conn != nil && r.conn.conn.conn != nil && ctx != nil
 //@   modifies *vendor, *product, *version, *url, *interfaces, gSendErr, gRecvRes, gSendWrites, gm, dlWpast, dlWzero, dlWctx, helper, gDlFail, gCancelled, gCtxErr, gWrCalls, gSends, gSentN, gSentErr
 //@   assert [call C13] at call(Call)#1 : arg0 == r.conn && arg2 == "org.varlink.resolver.GetInfo" && arg4 == boxed(addr_rep)
